@@ -29,18 +29,25 @@ static double WRAPPED_EXTENT(void) { wrapped_calls++; return WRAPPED_EXTENT_NOW;
 double wss_getMaximumExtent(void)
 /*@BODY wrapper_extent@*/
 void h_wrapper_extent(void) { wrapped_calls = 0; __CPROVER_assume(WRAPPED_EXTENT_NOW == WRAPPED_EXTENT_NOW); double r = wss_getMaximumExtent(); __CPROVER_assert(wrapped_calls == 1 && r == WRAPPED_EXTENT_NOW, "C06.extent a wrapper reports the wrapped space's extent as it is now"); REACH("delegated"); }
-double ARC; int arc_calls;
-static double ARCLENGTH(void) { arc_calls++; return ARC; }
-double so3_distance(void)
+/* SO3: arcLength (the quaternion dot product behind DOT4, acos behind a stub: acos(x) > 0 for x < 1, trusted), distance, equalStates */
+typedef struct { double x, y, z, w; } SO3State;
+#define MAX_QUATERNION_NORM_ERROR 1e-9
+double DOT; int dot_calls; double ACOS_RET; int acos_calls;
+static double DOT4(const SO3State *a, const SO3State *b) { dot_calls++; return DOT; }        /* q1.q2: one arbitrary value in [-1,1] per pair of states */
+static double ACOS_(double x) { acos_calls++; __CPROVER_assert(x >= 0.0 && x <= 1.0, "acos argument within [0,1]"); return ACOS_RET; }
+double so3_arcLength(const SO3State *state1, const SO3State *state2)
+/*@BODY so3_arcLength@*/
+double so3_distance(const SO3State *state1, const SO3State *state2)
 /*@BODY so3_distance@*/
-bool so3_equalStates(void)
+bool so3_equalStates(const SO3State *state1, const SO3State *state2)
 /*@BODY so3_equalStates@*/
 void h_so3_equal(void)
 {
-    __CPROVER_assume(ARC >= 0.0); arc_calls = 0;
-    double d = so3_distance(); bool e = so3_equalStates();
-    __CPROVER_assert(arc_calls == 2 && d == ARC, "the distance is the arc length");
-    __CPROVER_assert(e == (ARC < DBL_EPSILON), "C06.identity equalStates is decided by the same arc length as the distance");
+    SO3State a, b; dot_calls = 0; acos_calls = 0; __CPROVER_assume(DOT >= -1.0 && DOT <= 1.0); __CPROVER_assume(ACOS_RET >= 4.0e-5 && ACOS_RET <= 1.5707963267948966);   /* acos(x) >= acos(1 - 1e-9) = 4.47e-5 for every x the code passes on */
+    double d = so3_distance(&a, &b); bool e = so3_equalStates(&a, &b);
+    __CPROVER_assert(d >= 0.0, "C06.nonneg the distance is non-negative");
     __CPROVER_assert(e || d > 0.0, "C06.identity states that are not equal are a strictly positive distance apart");
-    if (e) REACH("equal"); else REACH("different");
+    __CPROVER_assert(!e || d == 0.0, "C06.identity equal states are at distance 0");
+    __CPROVER_assert((DOT == 1.0 || DOT == -1.0) ==> (e && d == 0.0), "C06.identity a rotation equals itself, whichever of its two quaternions q / -q represents it");
+    if (e) REACH("equal"); else REACH("different"); if (DOT < 0.0 && e) REACH("antipodal representation");
 }
